@@ -205,6 +205,17 @@ impl TypeAggregator {
         // Merge the interface's exports
         for (name, source_kind) in &types[id].exports {
             if let Some(target_kind) = self.types[existing].exports.get(name).copied() {
+                // Nested instances merge to the union of their exports, like
+                // the instances that are merged at the top level
+                if let (ItemKind::Instance(target), ItemKind::Instance(source)) =
+                    (target_kind, *source_kind)
+                {
+                    self.merge_interface(target, types, source, checker)
+                        .with_context(|| format!("mismatched type for export `{name}`"))?;
+                    self.remapped.insert(source_kind.ty(), target_kind.ty());
+                    continue;
+                }
+
                 // If the source kind is already a subtype of the target, do nothing
                 if checker
                     .is_subtype(*source_kind, types, target_kind, &self.types)
